@@ -80,6 +80,7 @@ inductive SysOp where
   | bRecvOther (now : Time) (p : Packet)  -- `b` receives an ordinary reliable packet of ANOTHER substream through `handle`
   | bPing (now : Time)                 -- `b`'s keep-alive timer fires
   | bAckIn (now : Time) (p : Packet)   -- `b` is handed an acknowledgement (not of SYN / CONNECT / DISCONNECT) of its own traffic
+  | bFireResend (now : Time) (p : Packet) (k : Nat)  -- a retransmission timer of `b` (for its own traffic) fires, within the budget
   | fireResend (now : Time) (p : Packet) (k : Nat)  -- a retransmission timer of `a` that holds `p` (counter `k`) fires
   | ackIn (now : Time) (p : Packet)    -- `a.handle` is handed ANY acknowledgement (ACK or aggregate MULTI_ACK flag; true, stale,
                                        -- coalesced or forged) of a non-handshake packet
@@ -147,6 +148,7 @@ def Sys.step (env : Env) (sub : Nat) (s : Sys) : SysOp → Sys
   | .bPing now => { s with b := (s.b.sendPing env now).c }
   | .bRecvOther now p => { s with b := (s.b.handle env now p).c }
   | .bAckIn now p => { s with b := (s.b.handle env now p).c }
+  | .bFireResend now p k => { s with b := (s.b.fireOne env now (.resend p k)).c }
 
 def Sys.run (env : Env) (sub : Nat) (s : Sys) (ops : List SysOp) : Sys := ops.foldl (Sys.step env sub) s
 
@@ -186,6 +188,7 @@ def Sys.opOk (env : Env) (sub : Nat) (s : Sys) : SysOp → Bool
       decide ((s.b.handle env now p).c.eof = s.b.eof)
   | .bAckIn _ p => (hasAck p.flags || hasMultiAck p.flags) && decide (p.type ≠ TYPE_SYN) && decide (p.type ≠ TYPE_CONNECT) &&
       decide (p.type ≠ TYPE_DISCONNECT)
+  | .bFireResend _ _ k => decide (k < s.b.resendLimit) && s.b.linkUp   -- beyond the budget `b` tears its own connection down
 
 def Sys.runOk (env : Env) (sub : Nat) : Sys → List SysOp → Bool
   | _, [] => true
@@ -598,6 +601,16 @@ theorem handle_ack_frame (env : Env) (now : Time) (c : Conn) (p : Packet) (hack 
           · exact ackFr_refl x
         · exact ackFr_refl x
 
+/-- a retransmission within the budget on a live link re-arms the timer and emits the stored packet: nothing of the receiver
+    role moves -/
+theorem fireOne_resend_recvFr (env : Env) (now : Time) (c : Conn) (p : Packet) (k sub : Nat)
+    (hk : k < c.resendLimit) (hl : c.linkUp = true) : RecvFr c (c.fireOne env now (.resend p k)).c sub := by
+  have h : c.fire env now (.resend p k) = R.ok (c.arm now p (k + 1)) [Out.emit c.remoteAddr p (encode env.cfg p)] := by
+    simp only [Conn.fire, Conn.resendPacket, hk, if_true, hl, Bool.not_true, Bool.false_eq_true, if_false]
+  unfold Conn.fireOne
+  simp only [h, R.ok]
+  exact arm_recvFr c now p (k + 1) sub
+
 /-! ## the coupling with the L2 channel -/
 
 /-- the L2 channel state `ch` describes the system `s` (substream `sub`, cipher `ci`, fragment size `size`) -/
@@ -641,6 +654,7 @@ def Sys.absOp (env : Env) (sub : Nat) (s : Sys) : SysOp → Option Op
   | .bPing _ => none
   | .bRecvOther _ _ => none
   | .bAckIn _ _ => none
+  | .bFireResend _ _ _ => none
 
 def stepOpt (ci : Cipher) (size : Nat) (ch : Chan) : Option Op → Chan
   | none => ch
@@ -1079,6 +1093,14 @@ theorem cpl_step (env : Env) (hround : ∀ b, env.decompress (env.compress b) = 
       obtain ⟨w, hw, hgw', hwm⟩ := h.bwin
       exact ⟨⟨h.size, h.srel, h.acipher, h.log, h.netgood, h.netord, h5 h.blink, h6 h.beof, h.sent, h.opn, h.cln, h.pend, h1,
         ⟨w, by rw [h4]; exact hw, hgw', hwm⟩, h2, h3.trans h.bcipher, h.nrel⟩, fun o ho => by cases ho⟩
+  | bFireResend now p k =>
+    simp only [Sys.absOp, stepOpt, Sys.step]
+    simp only [Sys.opOk, Bool.and_eq_true, decide_eq_true_eq] at hok
+    have hf := fireOne_resend_recvFr env now s.b p k sub hok.1 hok.2
+    obtain ⟨h1, h2, h3, h4, h5, h6⟩ := rrel_of_recvFr hf h.bwf h.rrel
+    obtain ⟨w, hw, hgw, hwm⟩ := h.bwin
+    exact ⟨⟨h.size, h.srel, h.acipher, h.log, h.netgood, h.netord, h5 h.blink, h6 h.beof, h.sent, h.opn, h.cln, h.pend, h1,
+      ⟨w, by rw [h4]; exact hw, hgw, hwm⟩, h2, h3.trans h.bcipher, h.nrel⟩, fun o ho => by cases ho⟩
   | bAckIn now p =>
     simp only [Sys.absOp, stepOpt, Sys.step]
     simp only [Sys.opOk, Bool.and_eq_true, decide_eq_true_eq] at hok
@@ -1155,6 +1177,7 @@ theorem timers_step (env : Env) (sub : Nat) (s : Sys) (op : SysOp) (h : TimersOk
   | bPing now => exact h
   | bRecvOther now p => exact h
   | bAckIn now p => exact h
+  | bFireResend now p k => exact h
 
 /-- **a retransmission is a re-delivery**: when a retransmission timer of the sender that holds a packet of the channel fires,
     what is handed to the transport is that very packet (or nothing), and it is an element of `net` — a copy of something
